@@ -146,9 +146,17 @@ def run_case(ctx, case, rng):
   n = 40 if ctx.tier == 'quick' else 3000
   cfg_names = list(recipes.CFGS)
   seen = set()
-  for _ in range(n):
+  for it in range(n):
     hist = []
-    for _ in range(int(rng.integers(4, 11))):
+    # every other history is "dense": 2 regexes x 4 selectors, so that deep interactions under ONE regex occur
+    # (re-adding an operator, '*' after several specific rules, unsupported rules shadowing earlier ones)
+    dense = it % 2 == 1
+    rxs = [str(r) for r in rng.choice(WIDE_REGEXES, size=2, replace=False)] if dense else WIDE_REGEXES
+    sels = ['*', 'FULLY_CONNECTED', 'TANH', 'CONV_2D'] if dense else WIDE_SELS
+    for _ in range(int(rng.integers(4, 13 if dense else 11))):
+      if dense:
+        hist.append(('add', str(rng.choice(rxs)), str(rng.choice(sels, p=[0.2, 0.3, 0.25, 0.25])), str(rng.choice(cfg_names))))
+        continue
       if rng.random() < 0.12:
         ent = []
         for _ in range(int(rng.integers(1, 4))):
